@@ -310,3 +310,23 @@ def normalize_init(t):
             return ("init", "(*%s)" % inner[1])
         return ("deref", inner)
     return t
+
+
+PURE_SUFFIX = ("From::from", "Into::into", "TryFrom::try_from", "TryInto::try_into", "SafeFrom::safe_from", "Try::branch",
+               "::len", "::unwrap", "::ok", "::ok_or", "::copied", "::cloned", "FromResidual::from_residual")
+
+
+def norm(t):
+    """term with the call-site block dropped for pure (argument-determined) calls, for structural comparison"""
+    if not isinstance(t, tuple) or not t or not isinstance(t[0], str):
+        return t
+    if t[0] == "call":
+        decl = t[4] or ""
+        pure = decl.endswith(PURE_SUFFIX)
+        return ("call", t[1], tuple(norm(a) for a in t[2]), None if pure else t[3], t[4])
+    return tuple(norm(x) if isinstance(x, tuple) and x and isinstance(x[0], str) else
+                 (tuple(norm(y) for y in x) if isinstance(x, tuple) else x) for x in t)
+
+
+def same(a, b):
+    return norm(strip(a)) == norm(strip(b))
